@@ -244,6 +244,8 @@ double _vnacal_new_solve_calc_pvalue(vnacal_new_solve_state_t *vnssp,
 			if (value < 0.0) {	/* rounding: samples all equal */
 			    value = 0.0;
 			}
+			VERIF_GHOST_ASSERT(value >= 0.0, "the variance "
+				"estimate of a leakage term is never negative");
 			weight = 1.0 / (noise * noise +
 				n_mean_squared / n * tracking * tracking);
 			value *= weight;
@@ -279,8 +281,8 @@ double _vnacal_new_solve_calc_pvalue(vnacal_new_solve_state_t *vnssp,
      * If the result is small, we can reject the null hypothesis that
      * the data are consistent with the model.
      */
-    VERIF_CUT(pvalue_before_chisq);
     assert(!isnan(chisq));
     assert(chisq >= 0.0);
+    VERIF_CUT(pvalue_before_chisq);
     return chisq_pvalue(df, chisq);
 }
